@@ -101,6 +101,18 @@ CLAIMED["C16"] = dict(
          "and the comparison with the single simultaneous contraction are recomputed by an oracle. Two genuine defects were repaired (fix: commits).",
     note=TB + "Scheme->tree conversion and the scaling/limit oracle are python (harness/props/c16.py). Inputs are sampled.")
 
+CLAIMED["C17"] = dict(
+    category="translation_validation", design="DESIGN.md §4 C17",
+    technique="independent parser of the emitted text into nested contraction trees, each validated by the Lean checker treeOK (treeOK_sound), blocks re-expanded by the Lean permutation model (exploit_sound) and compared with the input by the proved checker (checkEquiv_sound)",
+    text="For every generate_code() call explored (both backends, optimised/unoptimised, all target layouts, bra_ket_sym, result-tensor "
+         "kind) the emitted text is parsed by an interpreter written from the documented format alone: prefactors, tensor tokens (block "
+         "suffix must match the spaces of the index letters), index strings, nested einsum/contract/dot_product calls and the permutation "
+         "operators of every block. Each line's tree is accepted only by the Lean function treeOK; the re-expanded program is compared "
+         "with the input expression by checkEquiv. By treeOK_sound, exploit_sound and checkEquiv_sound an accepted program evaluates to "
+         "the expression for all tensor values, orbital models and target assignments (einsum: in the requested index order). "
+         "A documented NotImplementedError is accepted as refusal and counted. One genuine defect repaired (fix:), one known finding.",
+    note=TB + "The text interpreter and its token->tensor catalogue (harness/props/c17.py) are trusted glue. libtensor text does not state the result index order. Inputs are sampled.")
+
 PENDING = {
 }
 
